@@ -130,7 +130,11 @@ def _has_invalid_pin_cite(
         return False
 
     # parse full cite page
-    page = int(full_cite.groups["page"])
+    try:
+        page = int(full_cite.groups["page"])
+    except ValueError:
+        # more digits than int() accepts: nothing to compare against
+        return False
 
     # parse short cite pin
     m = re.match(r"(?:at )?(\d+)", id_cite.metadata.pin_cite)
@@ -140,7 +144,10 @@ def _has_invalid_pin_cite(
         # cites like "Id. at *10", but successfully filter invalid pin cites
         # like "1 U.S. 1. ... Id. at ¶ 10".
         return True
-    pin_cite = int(m[1])
+    try:
+        pin_cite = int(m[1])
+    except ValueError:
+        return True
 
     # check page range
     if pin_cite < page or pin_cite > page + MAX_OPINION_PAGE_COUNT:
